@@ -13,7 +13,7 @@ import numpy as np
 import z3
 from d3vc.engine import contract
 from d3vc.sym import B, CB
-from d3vc.spec import dot
+from d3vc.spec import dot, sq
 from d3vc.zarr import SI, ZTable, zint, _fresh
 from d3vc.loops import LoopSpec
 
@@ -185,4 +185,64 @@ def _(cx):
         if float(dotp) < -bias:
             cx.prove("inward_face_is_flipped", CB(fl), tol=0.0)
         cx.prove("kept_or_flipped", CB(min(un, fl)), tol=0.0)
+    cx.cover("end")
+
+
+@contract("epa.LooseEdges.add_removed_triangles_edges_to_list", fn=M + ".LooseEdges.add_removed_triangles_edges_to_list", props=["C07", "C19"],
+          deps=[M + ".LooseEdges.edge_already_in_list", M + ".LooseEdges.add_edge_to_list", M + ".LooseEdges.overwrite_edge_with_last_edge",
+                M + ".Polytope.get_edge"])
+def _(cx):
+    """the callee summary used by the removal-loop contract, checked against the body: for a list of 0 or 1 stored edges (arbitrary
+    coordinates) and an arbitrary non-degenerate face, the call does not write the polytope (faces, n_faces); the number of stored edges stays within
+    [0, capacity] and changes by at most 3; with an empty list the three edges of the face are stored in order.  Exact claims are made
+    outside the epsilon band of the edge comparison (end points identical or at least epsilon apart in some coordinate)."""
+    Polytope = cx.target(M + ".Polytope")
+    LooseEdges = cx.target(M + ".LooseEdges")
+    n0 = cx.choice(2, "stored_edges")
+    eps = 1e-8
+    if cx.mode == "sym":
+        face = np.array([[cx.vec("a"), cx.vec("b"), cx.vec("c"), cx.vec("nrm")], [cx.vec(n) for n in ("o0", "o1", "o2", "o3")]], dtype=object)
+        edges = np.array([[cx.vec("e%d_0" % k), cx.vec("e%d_1" % k)] for k in range(4)], dtype=object)
+    else:
+        g = np.random.default_rng(cx.rng.getrandbits(32))
+        face = g.normal(size=(2, 4, 3))
+        edges = g.normal(size=(4, 2, 3))
+        for k in range(n0):          # often the reverse of one of the face's edges (the interesting case)
+            if g.random() < 0.6:
+                j = int(g.integers(3))
+                edges[k, 0], edges[k, 1] = face[0, (j + 1) % 3], face[0, j]
+    for j in range(3):              # non-degenerate face: vertices pairwise apart (otherwise a face cancels its own edges)
+        d2 = sq([face[0, j][i] - face[0, (j + 1) % 3][i] for i in range(3)])
+        if cx.mode == "sym":
+            cx.assume(d2 >= 1e-12, "pre:face_vertices_distinct[%d]" % j)
+        else:
+            cx.assume(CB(1e-12 - float(d2)), "pre:face_vertices_distinct[%d]" % j)
+    # gap: every stored end point is identical to the face vertex it is compared with, or clearly apart
+    for k in range(n0):
+        for j in range(3):
+            for (p, q) in ((edges[k, 1], face[0, j]), (edges[k, 0], face[0, (j + 1) % 3])):
+                d2 = sq([p[i] - q[i] for i in range(3)])
+                if cx.mode == "sym":
+                    cx.assume(cx.any([d2 == 0, d2 >= 1e-12]), "gap:edge_compare[%d,%d]" % (k, j))
+                else:
+                    cx.assume(CB(-1.0) if (float(d2) == 0.0 or float(d2) >= 1e-12) else CB(1.0), "gap:edge_compare[%d,%d]" % (k, j))
+    poly = object.__new__(Polytope)
+    poly.max_faces, poly.epsilon, poly.faces, poly.n_faces = 2, eps, face, 2
+    loose = object.__new__(LooseEdges)
+    loose.max_loose_edges, loose.epsilon, loose.loose_edges, loose.n_loose_edges = 4, eps, edges, n0
+    before_faces = face.copy()
+    cx.call(loose.add_removed_triangles_edges_to_list, poly, 0)
+    same = (lambda a, b: cx.all([cx.eq(a[i], b[i]) for i in range(3)])) if cx.mode == "sym" else \
+        (lambda a, b: CB(float(np.max(np.abs(np.asarray(a, dtype=float) - np.asarray(b, dtype=float))))))
+    for f_ in range(2):
+        for r in range(4):
+            cx.prove("polytope_not_written[%d,%d]" % (f_, r), same(poly.faces[f_, r], before_faces[f_, r]), tol=0.0)
+    cx.prove("face_count_not_written", bool(poly.n_faces == 2))
+    n1 = loose.n_loose_edges
+    cx.prove("edge_count_in_range", bool(0 <= int(n1) <= 4 and abs(int(n1) - n0) <= 3))
+    if n0 == 0:
+        cx.prove("empty_list_gets_three_edges", bool(int(n1) == 3))
+        for j in range(3):
+            cx.prove("edge_stored[%d]" % j, cx.all([same(loose.loose_edges[j, 0], before_faces[0, j]), same(loose.loose_edges[j, 1], before_faces[0, (j + 1) % 3])])
+                     if cx.mode == "sym" else CB(max(float(np.max(np.abs(loose.loose_edges[j, 0] - before_faces[0, j]))), float(np.max(np.abs(loose.loose_edges[j, 1] - before_faces[0, (j + 1) % 3]))))), tol=0.0)
     cx.cover("end")
